@@ -121,7 +121,7 @@ CHECKS["C09"] = dict(
                _g09("sim", "dirs-ab", files=6, dir=1, pat=2, enc=0, alpha=2, num=70, depth=20, max=70, salt=2),
                _g09("sim", "dirs-enc", files=3, dir=1, pat=1, enc=1, alpha=2, num=6, depth=20, max=6, salt=3)],
         thorough=[_g09("exh", "files", files=1, dir=0, pat=3),
-                  _g09("exh", "dir1", files=1, dir=1, pat=1, enc=0, max=150),
+                  _g09("exh", "dir1", files=1, dir=1, pat=1, enc=0, aliases=0, max=150),
                   _g09("sim", "dirs", files=6, dir=1, pat=3, enc=0, num=300, depth=20, max=300, salt=1),
                   _g09("sim", "dirs-ab", files=6, dir=1, pat=3, enc=0, alpha=2, num=300, depth=20, max=300, salt=2),
                   _g09("sim", "dirs-enc", files=6, dir=1, pat=2, enc=1, alpha=2, num=40, depth=20, max=40, salt=3)]),
